@@ -98,7 +98,34 @@ def run(ctx):
             if not ok:
                 bad = (m, w)
                 break
-        ok = first_ok and bad is None
+        # an exit that REFUSES (returns an error before anything was written) is owed the restore as well: the caller goes on writing audio where the file was left
+        fw_pts = {f.cfg.point(c_) for c_ in f.calls('psf_fwrite') if f.cfg.point(c_) is not None}
+        rs_pts = {f.cfg.point(c_) for c_ in restores if f.cfg.point(c_) is not None}
+        refuse_bad = None
+        # only refusals that can happen with audio in the file: they run under the flag derived from `saved position > dataoffset`
+        from engine.util import branch_facts as _bfr
+        has_vars = set()
+        for x_ in f.walk():
+            if x_['k'] == 'IfStmt' and any(v_ in f.s(x_['cond']) for v_ in savevars) and 'dataoffset' in f.s(x_['cond']):
+                has_vars |= {lv_ for lv_, a_, r_ in assigned_lvalues(f, f.N[x_['then']]) if '->' not in lv_}
+        for r in errexits:
+            pr_ = f.cfg.point(r)
+            if pr_ is None:
+                continue
+            if not any(pol_ and any(hv_ in c_ for hv_ in has_vars) for c_, pol_ in _bfr(f, r)):
+                continue
+            for m in [c_ for c_ in seeks if c_ not in restores]:
+                pm_ = f.cfg.point(m)
+                if pm_ is None:
+                    continue
+                w_ = f.cfg.path_avoiding(pm_, {pr_[0]}, fw_pts | rs_pts, edge_ok=edge_ok)
+                if w_ is not None and not any(pp_[0] == pr_[0] and pp_[1] < pr_[1] for pp_ in (fw_pts | rs_pts)):
+                    refuse_bad = (m, r, w_)
+        ok = first_ok and bad is None and refuse_bad is None
+        if first_ok and bad is None and refuse_bad is not None:
+            ctx.ob('WH-RESTORE', name, False, f.loc(refuse_bad[1]), 'the refusing exit at %s is reached from the repositioning at %s with nothing written and without restoring the position: the caller\'s next write lands on the '
+                   'file header (lines %s)' % (f.loc(refuse_bad[1]), f.loc(refuse_bad[0]), f.cfg.block_lines(refuse_bad[2])[-5:]), {'movers': len(movers), 'restores': len(restores)})
+            continue
         msg = 'position saved before the first move and restored on every non-error path' if ok else (
             'position not saved (psf_ftell) before the file position is moved' if not first_ok else
             'after %s at %s a non-error return is reachable without restoring the position: lines %s' % (bad[0].get('callee'), f.loc(bad[0]), f.cfg.block_lines(bad[1])))
